@@ -381,6 +381,34 @@ func (s *Store) less(a, b primitives.MemberId) bool {
 
 func hx(b []byte) string { return fmt.Sprintf("%x", b) }
 
+// CanonRef / CanonVote: is the signed header encoded canonically (exactly the bytes the library's own builders
+// produce for these field values)? A non-canonical header (e.g. canonical bytes plus padding) reads the same.
+func CanonRef(b *protocol.BlockRef) bool {
+	if b == nil || len(b.Raw()) == 0 {
+		return true
+	}
+	c := (&protocol.BlockRefBuilder{MessageType: b.MessageType(), InstanceId: b.InstanceId(), BlockHeight: b.BlockHeight(), View: b.View(), BlockHash: b.BlockHash()}).Build().Raw()
+	return bytes.Equal(c, b.Raw())
+}
+
+func CanonVote(h *protocol.ViewChangeHeader) bool {
+	if h == nil || len(h.Raw()) == 0 {
+		return true
+	}
+	hb := &protocol.ViewChangeHeaderBuilder{MessageType: h.MessageType(), InstanceId: h.InstanceId(), BlockHeight: h.BlockHeight(), View: h.View()}
+	if p := h.PreparedProof(); p != nil && len(p.Raw()) > 0 {
+		hb.PreparedProof = protocol.PreparedProofBuilderFromRaw(p.Raw())
+	}
+	return bytes.Equal(hb.Build().Raw(), h.Raw())
+}
+
+func ncMark(ok bool) string {
+	if ok {
+		return ""
+	}
+	return "~nc"
+}
+
 func (s *Store) note(ok bool, d string) {
 	if ok {
 		s.Rec = append(s.Rec, d)
@@ -395,7 +423,7 @@ func (s *Store) StorePreprepare(m *interfaces.PreprepareMessage) bool {
 	if s.OnStore != nil {
 		s.OnStore("PP", uint64(m.InstanceId()), uint64(m.BlockHeight()), ok)
 	}
-	s.note(ok, fmt.Sprintf("PP/%d/%d/%s/%s/%s", m.BlockHeight(), m.View(), hx(m.Content().SignedHeader().BlockHash()), string(m.SenderMemberId()), TagOf(m.Block())))
+	s.note(ok, fmt.Sprintf("PP/%d/%d/%s/%s/%s", m.BlockHeight(), m.View(), hx(m.Content().SignedHeader().BlockHash()), string(m.SenderMemberId()), TagOf(m.Block()))+ncMark(CanonRef(m.Content().SignedHeader())))
 	return ok
 }
 func (s *Store) StorePrepare(m *interfaces.PrepareMessage) bool {
@@ -403,7 +431,7 @@ func (s *Store) StorePrepare(m *interfaces.PrepareMessage) bool {
 	if s.OnStore != nil {
 		s.OnStore("P", uint64(m.InstanceId()), uint64(m.BlockHeight()), ok)
 	}
-	s.note(ok, fmt.Sprintf("P/%d/%d/%s/%s", m.BlockHeight(), m.View(), hx(m.Content().SignedHeader().BlockHash()), string(m.SenderMemberId())))
+	s.note(ok, fmt.Sprintf("P/%d/%d/%s/%s", m.BlockHeight(), m.View(), hx(m.Content().SignedHeader().BlockHash()), string(m.SenderMemberId()))+ncMark(CanonRef(m.Content().SignedHeader())))
 	return ok
 }
 func (s *Store) StoreCommit(m *interfaces.CommitMessage) bool {
@@ -411,7 +439,7 @@ func (s *Store) StoreCommit(m *interfaces.CommitMessage) bool {
 	if s.OnStore != nil {
 		s.OnStore("C", uint64(m.InstanceId()), uint64(m.BlockHeight()), ok)
 	}
-	s.note(ok, fmt.Sprintf("C/%d/%d/%s/%s", m.BlockHeight(), m.View(), hx(m.Content().SignedHeader().BlockHash()), string(m.SenderMemberId())))
+	s.note(ok, fmt.Sprintf("C/%d/%d/%s/%s", m.BlockHeight(), m.View(), hx(m.Content().SignedHeader().BlockHash()), string(m.SenderMemberId()))+ncMark(CanonRef(m.Content().SignedHeader())))
 	return ok
 }
 func (s *Store) StoreViewChange(m *interfaces.ViewChangeMessage) bool {
